@@ -11,8 +11,26 @@ INV_C05 = ["LValid", "NeverTwoLongestAtOneHeight", "AckedNeverLost", "Redelivery
 PROP_C05 = ["ImmutableS", "RestartChangesNothing"]
 
 
+def long_reorg(binary, tier, seed, prop):
+    """A reorganisation relabelling > 500 rows per side: row-level failure == whole-write failure (atomic writes at scale)."""
+    d = c.sub("longreorg")
+    out = os.path.join(d, "res.json")
+    n = 520 if tier == "quick" else 1300
+    p = c.run_harness(binary, {"VERIF_OP": "longreorg", "VERIF_OUT": out, "VERIF_DB": os.path.join(d, "base.db"), "VERIF_SEED": seed, "VERIF_LEN": n, "TMPDIR": d}, cwd=d)
+    if p.returncode != 0 or not os.path.exists(out):
+        raise c.Infra("longreorg harness failed: %s %s" % (p.stdout[-800:], p.stderr[-1500:]))
+    res = json.load(open(out))
+    viol = []
+    if res.get("mismatch"):
+        viol.append(("deep reorganisation: " + res["mismatch"], {"family": "longreorg", "length": n, "seed": seed}))
+    return res, viol
+
+
 def c05(tier, seed, replay_path=None):
     binary = fc.build()
+    if replay_path and json.load(open(replay_path))["case"].get("family") == "longreorg":
+        res, viol = long_reorg(binary, tier, json.load(open(replay_path)).get("seed", seed), "C05")
+        return {"violations": viol, "known": [], "notes": [], "level": "fault_enumeration", "coverage": {"states": 1, "transitions": 1, "traces_validated_against_impl": 1, "samples": ["long reorg"]}, "assumptions": []}
     if replay_path:
         return verdict_from(replay_file(binary, replay_path, seed, ALL_KINDS, "C05"), ALL_KINDS, "C05", tier, [])
     rng = random.Random(seed)
@@ -58,6 +76,9 @@ def c05(tier, seed, replay_path=None):
     cov["rule"] = ("every history of <=N headers x every write boundary of every Add as kill point (kill@k) or failing write (err@k), "
                    "then restart (database.Init on the same file) and full redelivery, enumerated by TLC from spec/ChainSteps.tla; "
                    "non-trivial = behaviours in which a fault was actually injected (counted by the replayer)")
+    lr, lviol = long_reorg(binary, tier, seed, "C05")
+    cov["long_reorg"] = {k: x for k, x in lr.items() if k != "mismatch"}
+    v["violations"] += lviol
     v["assumptions"] = ASSUME + ["kill points are transaction boundaries (before each repository write); torn pages are SQLite's responsibility",
                                  "after a kill or a failed write the process restarts and peers redeliver everything in the original order (the property's protocol)"]
     return v
@@ -154,6 +175,9 @@ def _validate_conc(trace, tag):
 
 def c15(tier, seed, replay_path=None):
     binary = fc.build()
+    if replay_path and json.load(open(replay_path))["case"].get("family") == "longreorg":
+        res, viol = long_reorg(binary, tier, json.load(open(replay_path)).get("seed", seed), "C15")
+        return {"violations": viol, "known": [], "notes": [], "level": "model_checking", "coverage": {"states": 1, "transitions": 1, "traces_validated_against_impl": 1, "samples": ["long reorg"]}, "assumptions": []}
     if replay_path:
         raise c.Infra("C15 violations are recorded traces; re-run the check with the same VERIF_SEED to reproduce (replay file holds the rejected events)")
     runs, viol, notes = [], [], []
@@ -240,6 +264,11 @@ def c15(tier, seed, replay_path=None):
            "rule": "2-3 submitter goroutines (competing children of the tip, forks, children of headers another goroutine is adding) and 1-2 reader goroutines over the real SQL "
                    "stack; repository calls are granted one at a time in a seeded random order by the harness scheduler; every snapshot after a write and at every read, and the "
                    "final store, are validated by TLC against Trace_Conc.tla (StructValid snapshots, reader tip = top, final = Chain.AddRow folded in SOME order)"}
+    # a reader can only come between two ROWS of one repository write if that write is not atomic; the scheduler works at
+    # repository-call granularity, so atomicity of a write relabelling > 500 rows is checked with row-level failures
+    lr, lviol = long_reorg(binary, tier, seed, "C15")
+    cov["long_reorg"] = {k: x for k, x in lr.items() if k != "mismatch"}
+    viol += lviol
     return {"violations": viol, "known": [], "notes": notes, "level": "model_checking", "coverage": cov,
             "assumptions": ASSUME + ["schedules explored on the real code are seeded random ones at repository-call granularity; the exhaustive enumeration is on ChainSteps.tla",
                                      "peer connect/disconnect traffic and the shared peers map are exercised by the P2P rig (C06), not here"]}
